@@ -121,15 +121,16 @@ def _evaluate(c, what, x):
     return complex(c.correlation_2d_integral(x, 2 * x, 2 * x + 1.5 * x, shape="rectangle"))
 
 
-def _compute(kind, corr, bath, arrays):
-    """returns a numeric result; arrays: dict rho0, H, O, target, params"""
+def _compute(kind, corr, bath, arrays, pooled=None):
+    """returns a numeric result; arrays: dict rho0, H, O, target, params; pooled: (System, TempoParameters) objects
+    shared by the whole history (None: fresh ones)"""
     import oqupy
     from oqupy import operators
     rho0, H, O = arrays["rho0"], arrays["H"], arrays["O"]
     if bath is None:
         bath = oqupy.Bath(O, corr)
-    par = oqupy.TempoParameters(dt=0.1, epsrel=1e-8, dkmax=2)
-    system = oqupy.System(H)
+    par = oqupy.TempoParameters(dt=0.1, epsrel=1e-8, dkmax=2) if pooled is None else pooled[1]
+    system = oqupy.System(H) if pooled is None else pooled[0]
     kw = dict(progress_type="silent")
     if kind == "tempo":
         return np.array(oqupy.Tempo(system, bath, par, rho0, 0.0).compute(0.35, **kw).states)
@@ -204,6 +205,7 @@ def run_case(case):
     import oqupy
     out = Outcome()
     pts = []            # (process tensor, reference tensors at creation)
+    pooled = (oqupy.System(gens.herm(case["H"])), oqupy.TempoParameters(dt=0.1, epsrel=1e-8, dkmax=2))
     params = [
         {"type": "pl", "alpha": 0.2, "zeta": 1.0, "cutoff": case.get("wc0", 3.0), "cutoff_type": "exponential",
          "temperature": case.get("T0", [0.5, 0.5])[0]},
@@ -342,7 +344,7 @@ def run_case(case):
             before = {k: snap(v) for k, v in arrays.items()}
             out.label("compute:" + op["kind"], "layout=" + lay)
             try:
-                got = _compute(op["kind"], corrs[c], b, arrays)
+                got = _compute(op["kind"], corrs[c], b, arrays, pooled=pooled)
             except Exception as exc:
                 import traceback
                 tb = traceback.extract_tb(exc.__traceback__)
